@@ -127,6 +127,8 @@ def rule_scalar(chk, fb):
             d = meths.get(role)
             if d is None:
                 continue
+            if any(x in ty for ty in fb.field_types(adt).values() for x in ("HashMap<", "Vec<", "ThinVec<", "BTreeMap<", "BTreeSet<")):
+                continue  # a container of implementors (whether it loops or uses for_each): handled by the fan-out rule
             try:
                 it, paths = extract_scalar(fb, d)
             except NotKernel:
@@ -1003,7 +1005,15 @@ def rule_keyed_rows(chk, fb):
         root_ty = b.get("self_ty") or b.get("impl_self")
         if root_ty != owner:
             continue
-        shifts = [bi for bd in bodies_with_closures(fb, d) for bi, t in fb.calls_in(fb.mir[bd]) if bd == d and t.get("fn", "").split("::")[-1] in ("adjustment_insert_value", "adjustment_remove_value") and "Row" in t.get("fn", "")]
+        is_shift = lambda t: t.get("fn", "").split("::")[-1] in ("adjustment_insert_value", "adjustment_remove_value") and "Row" in t.get("fn", "")
+        shifts = [bi for bi, t in fb.calls_in(b) if is_shift(t)]
+        # ... or inside a closure handed to an iterator adaptor (for_each): the call that takes the closure is the site
+        shifting_closures = {bd for bd in bodies_with_closures(fb, d) if bd != d and any(is_shift(t) for _, t in fb.calls_in(fb.mir[bd]))}
+        if shifting_closures:
+            pfl = Flow(fb, b)
+            for bi, t in pfl.calls():
+                if any(x[0] == "cfn" and x[1] in shifting_closures for a in t["args"] for x in pfl.atoms(a)) and not t.get("fn", "").endswith(("::retain", "::retain_mut")):
+                    shifts.append(bi)
         if not shifts:
             continue
         cfg = CFG(b)
